@@ -128,3 +128,27 @@ pub fn sample_index_parameters(values: usize, universe: usize) -> (usize, usize)
         (if universe == 1 { 1 } else { 2 }, d)
     }
 }
+
+/// Same closed form restricted to at most 8 values (one sample): the result is concrete in its
+/// first component, so the loops of SampleIndex::new fold.
+pub fn sample_index_parameters_le8(values: usize, universe: usize) -> (usize, usize) {
+    assert!(values >= 1 && values <= 8 && universe >= 1, "stub: SampleIndex::parameters closed form (<= 8 values)");
+    (1, universe)
+}
+
+// R3 contract stub for SampleIndex::new (at most 8 values): the real function then asserts only
+// that the first value is 0 (its other checks run inside a loop that needs >= 9 values) and
+// builds an index whose range() admits every block; the stub asserts the same and returns the
+// widest admissible index through the cfg(simple_sds_verif) hook. SampleIndex::new/range
+// themselves are verified in their own family (c03_sample_index_*).
+pub fn sample_index_new_contract<T: Iterator<Item = usize> + ExactSizeIterator>(iter: T, universe: usize) -> simple_sds::rl_vector::index::SampleIndex {
+    let mut iter = iter;
+    let n = iter.len();
+    assert!(n <= 8, "stub: SampleIndex::new contract stub only covers <= 8 values");
+    if n == 0 || universe == 0 {
+        return simple_sds::rl_vector::index::SampleIndex::verif_widest(0);
+    }
+    let first = iter.next().unwrap();
+    assert!(first == 0, "SampleIndex::new(): The initial value must be 0");
+    simple_sds::rl_vector::index::SampleIndex::verif_widest(n)
+}
